@@ -175,6 +175,16 @@ def check(case, acc, tmp):
                     acc.count('clause:function-args')
                 exp = m0.transform(ax, mf)
                 ok = judge(r, exp, 'transform', tol=(fname == 'relsum'), **kw)
+                if not inpl:
+                    # "in place or not": the copying variant must leave the table it was called on alone
+                    acc.evals += 1
+                    if diff(t, m0) is not None:
+                        bad('transform:source-modified', 'transform(%s, inplace=False) changed the table it was '
+                            'called on: %s' % (fname, diff(t, m0)), **kw)
+                    elif r is t:
+                        bad('transform:source-modified', 'transform(inplace=False) returned the receiver itself', **kw)
+                    else:
+                        acc.count('clause:copying-variant-leaves-source')
                 if ok and fname in ELEMENTWISE and not inpl:
                     elementwise_results.setdefault(fname, {})[ax] = O.content(r)
             # norm
